@@ -257,11 +257,22 @@ def rule_p4(ctx) -> None:
     if not ok:
         ctx.finding("C05-P4", "Balancer.rebalance:output-filter", reb.loc(), "the output is not a plain in-order projection of the accumulated rows")
     nx = prog.func("synrbl.SynUtils.batching.DataLoader.__next__")
-    src = unparse(nx.node)
-    ok = "next(self.__data)" in src and ".append(" in src and "sort" not in src and "insert" not in src
-    ctx.instance("C05-P4", "DataLoader.__next__ appends consecutive items of the source", nx.loc(), ok=ok)
+    sn = nx.params[0]
+    draws = [c for c in calls(nx) if unparse(c.func).split(".")[-1] in ("next", "islice") and c.args and isinstance(c.args[0], ast.Attribute) and isinstance(c.args[0].value, ast.Name) and c.args[0].value.id == sn]
+    appended = any(unparse(c.func).split(".")[-1] == "islice" for c in draws)
+    for c in draws:
+        par = getattr(c, "_parent", None)
+        if isinstance(par, ast.Call) and isinstance(par.func, ast.Attribute) and par.func.attr == "append":
+            appended = True
+        if isinstance(par, ast.Assign) and isinstance(par.targets[0], ast.Name):
+            nm = par.targets[0].id
+            appended = appended or any(isinstance(x, ast.Call) and isinstance(x.func, ast.Attribute) and x.func.attr == "append" and x.args and isinstance(x.args[0], ast.Name) and x.args[0].id == nm for x in own_nodes(nx.node))
+    reorder = [c for c in calls(nx) if (isinstance(c.func, ast.Attribute) and c.func.attr in ("sort", "insert", "reverse", "pop", "remove")) or (isinstance(c.func, ast.Name) and c.func.id in ("sorted", "reversed", "set"))]
+    ok = bool(draws) and appended and not reorder
+    ctx.instance("C05-P4", "DataLoader.__next__ appends consecutive items of the source (%d next() call(s), appended: %s, reordering calls: %d)" % (len(draws), appended, len(reorder)), nx.loc(), ok=ok)
     if not ok:
         ctx.finding("C05-P4", "DataLoader.__next__:order", nx.loc(), "DataLoader does not take consecutive items of its source in order")
+    rule_p5(ctx, nx, draws)
     # Dataset: the two ways of drawing items (iteration and next()) must see the same stream
     ds = prog.cls("synrbl.SynUtils.batching.Dataset")
     it, nx2 = ds.methods.get("__iter__"), ds.methods.get("__next__")
@@ -288,10 +299,125 @@ def rule_p4(ctx) -> None:
             if replayed:
                 continue
             ctx.finding("C05-P4", "Dataset.%s:consumes-reader" % m.name, m.loc(consumes[0]), "Dataset.%s takes an item from the underlying reader outside the iteration protocol; unless every reading path replays it, a row is lost" % m.name)
-    # P5 (reported as a consequence): CLI zips inputs with outputs
+    rule_p7(ctx)
+
+
+def rule_p7(ctx) -> None:
+    """CLI: the rows that receive the pass-through columns are, one by one, the
+    results of the input rows they are zipped with - the direct return value of
+    rebalance(<the same input list>), each element a distinct object."""
+    prog = ctx.prog
+    ctx.rule("C05-P7", "cmd_run.impute zips the input rows with the direct result of rebalance(<those rows>)", 1)
     imp = prog.func("synrbl.SynCmd.cmd_run.impute")
-    z = [n for n in own_nodes(imp.node) if isinstance(n, ast.For) and isinstance(n.iter, ast.Call) and getattr(n.iter.func, "id", "") == "zip"]
-    ctx.instance("C05-P4", "cmd_run.impute copies pass-through columns by zip(inputs, outputs) - sound iff P1-P3 hold (%d site)" % len(z), imp.loc(z[0]) if z else imp.loc(), ok=True, nontrivial=False)
+    zs = [n for n in own_nodes(imp.node) if isinstance(n, ast.For) and isinstance(n.iter, ast.Call) and getattr(n.iter.func, "id", "") == "zip" and len(n.iter.args) == 2]
+    ctx.require(zs, "cmd_run.impute no longer zips inputs with outputs")
+    for z in zs:
+        a, b = z.iter.args
+        names = [x.id if isinstance(x, ast.Name) else None for x in (a, b)]
+        verdict, why = "unknown", "operands of zip are not plain names"
+        if all(names):
+            # which one is the rebalance result?
+            res = None
+            for nm, other in ((names[0], names[1]), (names[1], names[0])):
+                asg = assignments_to(imp, nm)
+                if len(asg) == 1 and isinstance(asg[0][1], ast.Call):
+                    tgt = ctx.res.resolve_callee(asg[0][1], imp)
+                    if tgt and tgt[0] == "func" and tgt[1] == REBALANCE:
+                        res = (nm, other, asg[0][1])
+            if res is not None:
+                nm, other, call = res
+                first = call.args[0] if call.args else next((k.value for k in call.keywords if k.arg == "reactions"), None)
+                if isinstance(first, ast.Name) and first.id == other:
+                    verdict, why = "ok", "%s = rebalance(%s, ...)" % (nm, other)
+                else:
+                    verdict, why = "bad", "%s is the result of rebalance(%s), not of the rows it is zipped with (%s)" % (nm, unparse(first) if first is not None else "?", other)
+            else:
+                for nm in names:
+                    for _, v, _i in assignments_to(imp, nm):
+                        if isinstance(v, ast.ListComp):
+                            e = v.elt
+                            if isinstance(e, (ast.Subscript, ast.Name)) or (isinstance(e, ast.Call) and isinstance(e.func, ast.Attribute) and e.func.attr == "get"):
+                                verdict, why = "bad", "%s is rebuilt by look-ups (%s): input rows that map to the same entry share one result object, and the row-wise copy of the pass-through columns overwrites it" % (nm, unparse(v)[:60])
+        ctx.instance("C05-P7", "impute: %s (%s)" % (unparse(z.iter), why), imp.loc(z), ok=verdict == "ok")
+        if verdict == "bad":
+            ctx.finding("C05-P7", "SynCmd.cmd_run.impute:zip-operands", imp.loc(z), why)
+        elif verdict == "unknown":
+            ctx.require(False, "cmd_run.impute: cannot relate the operands of %s to a rebalance call (%s)" % (unparse(z.iter), why))
+
+
+def rule_p5(ctx, nx, draws) -> None:
+    """The loader may end the stream only because its source is exhausted: the
+    flag that guards ``raise StopIteration`` is set in a handler of the source's
+    own StopIteration and nowhere else; no count or size estimate ends it."""
+    from ..cfg import CFG
+
+    ctx.rule("C05-P5", "DataLoader ends the stream only when its source raised StopIteration (no count / estimate decides it)", 2)
+    cls = nx.cls
+    sn = nx.params[0]
+    cfg = CFG(nx.node)
+    raises = [n for n in own_nodes(nx.node) if isinstance(n, ast.Raise) and n.exc is not None and "StopIteration" in unparse(n.exc)]
+    ctx.require(raises, "DataLoader.__next__ no longer raises StopIteration")
+    flags = set()
+    for r in raises:
+        g = cfg.guards(cfg.node_of(r))
+        attrs = {a.attr for c, _ in g for a in ast.walk(c) if isinstance(a, ast.Attribute) and isinstance(a.value, ast.Name) and a.value.id == sn}
+        others = {x.id for c, _ in g for x in ast.walk(c) if isinstance(x, ast.Name) and x.id != sn and x.id not in ("len", "bool")}
+        src0 = {c.args[0].attr for c in draws}
+
+        def from_source(name):
+            asg = assignments_to(nx, name)
+            if not asg:
+                return False
+            for _, v, _i in asg:
+                if isinstance(v, (ast.List, ast.Tuple)) and not v.elts:
+                    continue
+                if any(isinstance(a, ast.Attribute) and isinstance(a.value, ast.Name) and a.value.id == sn and a.attr in src0 for a in ast.walk(v)):
+                    continue
+                return False
+            return True
+
+        drawn = {o for o in others if from_source(o)}
+        others -= drawn
+        ok = (bool(attrs) or bool(drawn)) and not others and len(attrs) <= 1
+        ctx.instance("C05-P5", "raise StopIteration is guarded by the flag %s only" % sorted(attrs), nx.loc(r), ok=ok)
+        if not ok:
+            ctx.finding("C05-P5", "DataLoader.__next__:stop-condition", nx.loc(r), "the end of the stream is decided by %s, not by a flag recording that the source is exhausted" % (sorted(attrs | others) or "nothing"))
+        flags |= attrs
+    src_attrs = {c.args[0].attr for c in draws}
+    for m in cls.methods.values():
+        msn = m.params[0] if m.params else None
+        for n in own_nodes(m.node):
+            tg = n.targets if isinstance(n, ast.Assign) else ([n.target] if isinstance(n, (ast.AugAssign, ast.AnnAssign)) else [])
+            for t in tg:
+                if not (isinstance(t, ast.Attribute) and isinstance(t.value, ast.Name) and t.value.id == msn and t.attr in flags):
+                    continue
+                val = getattr(n, "value", None)
+                if m.name == "__init__" and isinstance(val, ast.Constant) and val.value is False:
+                    ctx.instance("C05-P5", "flag %s starts as False" % t.attr, m.loc(n), ok=True, nontrivial=False)
+                    continue
+                # inside `except StopIteration` of a try whose body draws from the source
+                h = getattr(n, "_parent", None)
+                while h is not None and not isinstance(h, ast.ExceptHandler):
+                    h = getattr(h, "_parent", None)
+                ok = False
+                if h is not None and h.type is not None and unparse(h.type) == "StopIteration":
+                    tr = getattr(h, "_parent", None)
+                    ok = isinstance(tr, ast.Try) and any(isinstance(x, ast.Call) and isinstance(x.func, ast.Name) and x.func.id == "next" and x.args and isinstance(x.args[0], ast.Attribute) and x.args[0].attr in src_attrs for b in tr.body for x in ast.walk(b))
+                ok = ok and isinstance(val, ast.Constant) and val.value is True
+                if not ok and m is nx and isinstance(val, ast.Constant) and val.value is True:
+                    # short read: fewer items than asked for came back from islice(source, B)
+                    mcfg = cfg
+                    for c, pol in mcfg.guards(mcfg.node_of(n)):
+                        if pol and isinstance(c, ast.Compare) and len(c.ops) == 1 and isinstance(c.ops[0], ast.Lt) and isinstance(c.left, ast.Call) and getattr(c.left.func, "id", "") == "len" and c.left.args and isinstance(c.left.args[0], ast.Name):
+                            lst = c.left.args[0].id
+                            bound = unparse(c.comparators[0])
+                            for _, v, _i in assignments_to(nx, lst):
+                                for x in ast.walk(v):
+                                    if isinstance(x, ast.Call) and unparse(x.func).split(".")[-1] == "islice" and len(x.args) == 2 and isinstance(x.args[0], ast.Attribute) and x.args[0].attr in src_attrs and unparse(x.args[1]) == bound:
+                                        ok = True
+                ctx.instance("C05-P5", "%s: %s" % (m.name, unparse(n)[:70]), m.loc(n), ok=ok)
+                if not ok:
+                    ctx.finding("C05-P5", "DataLoader.%s:stop-flag:%s" % (m.name, t.attr), m.loc(n), "the flag that ends the stream is set outside a handler of the source's StopIteration (%s): if the value it is computed from is off by one row, the remaining rows are never delivered" % unparse(n)[:70])
 
 
 def check(ctx) -> None:
